@@ -425,6 +425,20 @@ def _check_em(case):
                   'sample() modified the arrays it was given: parameters %r -> %r, model output %r -> %r' % (
                       sig_free.tolist(), a_sig.tolist(), ybar.tolist()[:6], a_yb.tolist()[:6]), kind='input_modified')
 
+    # the default call (n_samples not given) over several time points: every time point has its own noise term
+    if n_t >= 2 and kind != 'cm':
+        with case.clause('em_default_call:' + kind):
+            y0 = np.array(em.sample(sig_free.copy(), ybar.copy(), seed=int(s['seed'])), dtype=float)
+            case.equal(y0.shape, (n_t, 1), 'shape of the samples of the default call', kind='shape')
+            if kind == 'lognorm':
+                zz = (np.log(y0[:, 0]) - np.log(ybar) + sig[0] ** 2 / 2.0) / sig[0]
+            else:
+                mm, ss = ref.em_mean_std(kind, sig, ybar)
+                zz = (y0[:, 0] - mm) / ss
+            spread = float(np.max(zz) - np.min(zz))
+            case.true(spread > 1e-9 * max(1.0, float(np.max(np.abs(zz)))), 'the %d time points of one default call carry the '
+                      'same standardised noise %r' % (n_t, zz[:4].tolist()), kind='identical')
+
     # one generator object handed to successive calls (what the predictive models do, per output and per individual):
     # the calls draw on, and together they are ONE sample of the documented density (pooled below with the seeded ones)
     with case.clause('em_generator_seed:' + kind):
